@@ -65,8 +65,11 @@ def gen(seed):
             data = [rng.choice([1, 2]) for _ in range(ln)]
             k = rng.randint(1, ln)
             pat = (ch,) + tuple(data[:k])
-            if pat in used or ('full', ch, tuple(data)) in used:
+            if ('full', ch, tuple(data)) in used:
                 continue
+            if pat in used and rng.random() < 0.6:
+                continue        # (identical patterns with different payloads are kept in 40 % of the cases: e.g. the two
+                #                  append messages of one log block expect the same answer)
             used.add(('full', ch, tuple(data)))
             # the full payload must not equal another request's payload either (its echo would be ambiguous)
             used.add(pat)
@@ -115,7 +118,8 @@ def execute(ctx):
     pk_first = {}      # id(pk) -> (session, t)
     keep = []          # keep packet objects alive so that id() stays unique
     ev = []            # global event list: ('tx'|'retry-begin'|'answered'|'close-call'|'close-ret'|'send-begin', ...)
-    model = {}         # pattern -> dict(pk id, timeout, session)   (reference model of pending requests)
+    model = {}         # pattern -> [dict(pk id, timeout, session)]   (reference model of pending requests)
+    req_info = {}      # pk id -> timeout, session, pattern
 
     def on_uplink(link, pk):
         keep.append(pk)
@@ -145,7 +149,8 @@ def execute(ctx):
             ev.append(('send-begin', sim.now, id(pk), resend))
             if not resend and len(expected_reply) > 0 and link is not None and link.needs_resending:
                 pattern = (pk.header,) + tuple(expected_reply)
-                model[pattern] = {'pk': id(pk), 'timeout': timeout, 'session': link.session}
+                model.setdefault(pattern, []).append({'pk': id(pk), 'timeout': timeout, 'session': link.session})
+                req_info[id(pk)] = {'timeout': timeout, 'session': link.session, 'pattern': pattern}
             return orig_send(pk, expected_reply, resend, timeout)
         cf.send_packet = send
         # refinement check of the answer matcher: replace the registered bound method by a wrapper
@@ -187,7 +192,8 @@ def execute(ctx):
                 cands = [p for p in before if match(p)]
                 want = max(cands, key=len) if cands else None
             if want is not None and want in model:
-                ev.append(('answered', sim.now, model[want]['pk'], want))
+                for m in model[want]:
+                    ev.append(('answered', sim.now, m['pk'], want))
                 del model[want]
         cbs[idx] = check
 
@@ -196,22 +202,27 @@ def execute(ctx):
         P.sim_sleep(1.0)
 
     verdict = sim.run(scenario)
-    if verdict[0] in ('deadlock', 'timeout'):
+    if verdict[0] in ('deadlock', 'timeout', 'livelock'):
         from simkit.harness import hang_signature
         sg, msg = hang_signature(verdict)
         ctx.violation('0', sg, msg, verdict[1])
     for name, exc, tb in sim.thread_deaths:
         ctx.violation('0', 'thread-died %s @%s' % (exc.split(':')[0], cflib_site(tb)),
                       'library thread %s died: %s' % (name, exc), tb)
-    oracle(ctx, w, tx, ev, pk_first, slack)
+    oracle(ctx, w, tx, ev, pk_first, slack, req_info, sim.now)
     _debug_dump(ctx, ev)
 
 
 def run_session(ctx, w, dev, cf, si, s, ev, model, state, CRTPPacket):
     sim = ctx.sim
     got = {}
-    cbs = {n: (lambda *a, n=n: got.setdefault(n, sim.now)) for n in
-           ('link_established', 'connected', 'connection_failed', 'disconnected')}
+    def mk(n):
+        def cb(*a):
+            got.setdefault(n, sim.now)
+            if n in ('connection_failed', 'disconnected'):
+                ev.append(('link-down', sim.now, si))
+        return cb
+    cbs = {n: mk(n) for n in ('link_established', 'connected', 'connection_failed', 'disconnected')}
     for n, cb in cbs.items():
         getattr(cf, n).add_callback(cb)
     if s.get('fail'):
@@ -277,7 +288,7 @@ def run_session(ctx, w, dev, cf, si, s, ev, model, state, CRTPPacket):
     P.sim_sleep(ctx.work.choice([0.0, 0.05, 0.3, 0.7]))
 
 
-def oracle(ctx, w, tx, ev, pk_first, slack):
+def oracle(ctx, w, tx, ev, pk_first, slack, req_info=None, t_end=0.0):
     needs = w.needs_resending
     by_pk = {}
     for rec in tx:
@@ -332,6 +343,29 @@ def oracle(ctx, w, tx, ev, pk_first, slack):
                               'processed at %.4f (retry entered after the answer)' % (pid % 100000, e[1], ev[a][1]))
                 break
             ctx.probe('retry in flight while answer processed (excused)')
+    # clause 1 (liveness of the retry chain): while a request is pending on an open link that needs resending, the time
+    # since its last transmission never exceeds its timeout (+ slack)
+    if needs and req_info:
+        down = {}
+        for e in ev:
+            if e[0] in ('close-call', 'link-down'):
+                down.setdefault(e[2], e[1])
+        ans_t = {}
+        for e in ev:
+            if e[0] == 'answered':
+                ans_t.setdefault(e[2], e[1])
+        for pid, info in req_info.items():
+            recs = by_pk.get(pid)
+            if not recs:
+                continue
+            sess = recs[0][2]
+            end = min(ans_t.get(pid, 1e18), down.get(sess, 1e18), t_end)
+            last = max(r[1] for r in recs if r[1] <= end + 1e-12)
+            if end - last > info['timeout'] + slack + 1e-9:
+                ctx.violation('1', 'request-not-retransmitted', 'header=%#x data=%r (timeout %.3f) was last transmitted at '
+                              '%.4f and stayed unanswered on an open link until %.4f' % (
+                                  recs[0][4], recs[0][5], info['timeout'], last, end))
+                break
     # clause 1: retransmission interval
     timeouts = {}
     for e in ev:
